@@ -5,8 +5,8 @@
    network).  After every event it reports what kind of event it was (an
    election start, a vote request delivered with its answer, a vote answer
    delivered, an append request written by a leader, an append request
-   delivered, a success answer delivered to the leader, a crash+restart, or
-   anything else) together with the projection of EVERY node's state onto the
+   delivered, a success answer delivered to the leader, a snapshot installed, a
+   crash+restart, or anything else) together with the projection of EVERY node's state onto the
    abstract state (term, vote, role, log, durable prefix, commit index).
 
    [explain] executes the corresponding abstract steps (checking every guard
@@ -24,29 +24,6 @@ Import ListNotations.
 Open Scope N_scope.
 
 (* ---- boolean equalities ---- *)
-
-Definition entry_eqb (a b : entry) : bool := (fst a =? fst b) && (snd a =? snd b).
-
-Lemma entry_eqb_eq a b : entry_eqb a b = true -> a = b.
-Proof.
-  destruct a as [a1 a2], b as [b1 b2]. unfold entry_eqb. simpl. intro H.
-  apply andb_prop in H. destruct H as [H1 H2].
-  apply N.eqb_eq in H1. apply N.eqb_eq in H2. subst. reflexivity.
-Qed.
-
-Fixpoint log_eqb (a b : list entry) : bool :=
-  match a, b with
-  | [], [] => true
-  | x :: a', y :: b' => entry_eqb x y && log_eqb a' b'
-  | _, _ => false
-  end.
-
-Lemma log_eqb_eq a : forall b, log_eqb a b = true -> a = b.
-Proof.
-  induction a as [|x a IH]; intros [|y b] H; simpl in H; try discriminate; [reflexivity|].
-  apply andb_prop in H. destruct H as [H1 H2].
-  apply entry_eqb_eq in H1. apply IH in H2. subst. reflexivity.
-Qed.
 
 Definition areq_eqb (a b : areq) : bool :=
   (rterm a =? rterm b) && (rldr a =? rldr b) && Nat.eqb (rprevIdx a) (rprevIdx b) &&
@@ -112,6 +89,19 @@ Proof.
   subst. exists j. split; assumption.
 Qed.
 
+Definition lpreb (s : state) (t : N) (X : list entry) : bool :=
+  existsb (fun r => (fst (fst r) =? t) && prefixb X (snd r)) (elected s) ||
+  existsb (fun K => (lastTerm K =? t) && prefixb X K) (created s).
+
+Lemma lpreb_ok s t X : lpreb s t X = true -> lpre s t X.
+Proof.
+  unfold lpreb, lpre. intro H. apply orb_prop in H. destruct H as [H|H]; apply existsb_exists in H.
+  - destruct H as [[[t' n] L] [Hin H]]. simpl in H. apply andb_prop in H. destruct H as [H1 H2].
+    apply N.eqb_eq in H1. subst t'. left. exists n, L. split; [exact Hin | apply prefixb_true; exact H2].
+  - destruct H as [K [Hin H]]. apply andb_prop in H. destruct H as [H1 H2]. apply N.eqb_eq in H1.
+    right. exists K. split; [exact Hin|]. split; [exact H1 | apply prefixb_true; exact H2].
+Qed.
+
 (* ---- observations ---- *)
 
 Record obs := mkO {
@@ -139,19 +129,42 @@ Inductive aevent :=
 | ASend (l : N) (m : areq)                 (* leader l wrote append request m *)
 | ARecv (f : N) (m : areq)                 (* f handled append request m *)
 | AAck (l f : N) (k : nat)                 (* leader l handled f's success answer to a request whose last index is k *)
-| ACrash (n : N)                           (* n crashed and restarted *)
+| ACrash (n : N) (c : nat)                 (* n crashed and restarted with commit index c *)
+| AInstall (f t l : N) (K : list entry) (c : nat)  (* f installed the snapshot of leader l (term t) standing for the log prefix K; its commit index is then c *)
 | AOther (n : N).                          (* any other event at n *)
 
 Definition ev_node (e : aevent) : N :=
   match e with
   | AStart n => n | AVoteReq v _ _ _ => v | AVoteRes c _ _ => c | ASend l _ => l
-  | ARecv f _ => f | AAck l _ _ => l | ACrash n => n | AOther n => n
+  | ARecv f _ => f | AAck l _ _ => l | ACrash n _ => n | AInstall f _ _ _ _ => f | AOther n => n
   end.
 
 Inductive res := Ok (s : state) | Fail (code : nat).
 
 Section Exec.
 Variable V : list N.
+
+Definition ackers (s : state) (tc : N) (k : nat) : list N :=
+  filter (fun v => existsb (fun a => (fst (fst a) =? tc) && (snd (fst a) =? v) && Nat.leb k (snd a)) (acked s))
+         (nodup N.eq_dec V).
+
+Definition chosenb (s : state) (tc : N) (k : nat) : bool :=
+  Nat.ltb (length V) (2 * length (ackers s tc k)).
+
+Lemma chosenb_ok s tc k : chosenb s tc k = true -> chosen V s tc k.
+Proof.
+  unfold chosenb, chosen, ackers. intro H. apply Nat.ltb_lt in H.
+  exists (filter (fun v => existsb (fun a => (fst (fst a) =? tc) && (snd (fst a) =? v) && Nat.leb k (snd a)) (acked s))
+                 (nodup N.eq_dec V)).
+  split.
+  - split; [apply NoDup_filter; apply NoDup_nodup|]. split; [|lia].
+    intros v Hv. apply filter_In in Hv. destruct Hv as [Hv _]. apply nodup_In in Hv. exact Hv.
+  - intros v Hv. apply filter_In in Hv. destruct Hv as [_ Hv]. apply existsb_exists in Hv.
+    destruct Hv as [[[tc' v'] i] [Hin Ha]]. simpl in Ha.
+    rewrite !andb_true_iff in Ha. destruct Ha as [[H1 H2] H3].
+    apply N.eqb_eq in H1. apply N.eqb_eq in H2. apply Nat.leb_le in H3. subst.
+    exists i. split; assumption.
+Qed.
 
 (* ---- the step named by the event ---- *)
 
@@ -193,7 +206,22 @@ Definition main_step (s : state) (e : aevent) : res :=
       let a := mkAck (cur x) f l k in
       if negb (role_eqb (role x) Leader) then Fail 60 else
       if negb (existsb (aeqb a) (acks s)) then Fail 61 else Ok (do_recv_ack l a s)
-  | ACrash n => Ok (do_crash n s)
+  | AInstall f t l K c =>
+      let x := st s f in
+      if (f =? l) then Fail 100 else
+      if negb (Nat.leb (commit x) c && Nat.leb c (Nat.max (commit x) (length K))) then Fail 105 else
+      if negb (cur x <=? t) then Fail 101 else
+      match find (fun r => (fst (fst r) =? t) && (snd (fst r) =? l)) (elected s) with
+      | None => Fail 102
+      | Some _ =>
+          if negb (lpreb s t K) then Fail 103 else
+          match find (fun K2 => prefixb K K2 && (lastTerm K2 <=? t) && chosenb s (lastTerm K2) (length K2)) (created s) with
+          | None => Fail 104
+          | Some K2 => Ok (do_install f t l K K2 c s)
+          end
+      end
+  | ACrash n c =>
+      if negb (Nat.leb c (commit (st s n))) then Fail 95 else Ok (do_crash n c s)
   | AOther _ => Ok s
   end.
 
@@ -297,7 +325,7 @@ Qed.
 
 Lemma main_step_sound s e s' : main_step s e = Ok s' -> steps V s s'.
 Proof.
-  destruct e as [n|v t c g|c v g|l m|f m|l f k|n|n]; simpl.
+  destruct e as [n|v t c g|c v g|l m|f m|l f k|n c|f t l K c|n]; simpl.
   - destruct (N.eqb_spec n 0) as [|Hn]; [discriminate|].
     destruct (role_eqb (role (st s n)) Leader) eqn:Hr; [discriminate|].
     intro H; inversion H; subst. apply steps_one. apply SStart; [exact Hn|].
@@ -338,7 +366,21 @@ Proof.
     destruct (negb (existsb _ _)) eqn:G2; [discriminate|]. apply negb_false_iff in G2.
     apply (existsb_In aeqb aeqb_eq) in G2.
     intro H; inversion H; subst. apply steps_one. apply SRecvAck; [exact G1 | exact G2 | reflexivity | reflexivity].
-  - intro H; inversion H; subst. apply steps_one. apply SCrash.
+  - destruct (negb (Nat.leb c _)) eqn:G1; [discriminate|]. apply negb_false_iff in G1. apply Nat.leb_le in G1.
+    intro H; inversion H; subst. apply steps_one. apply SCrash. exact G1.
+  - destruct (N.eqb_spec f l) as [|Hne]; [discriminate|].
+    destruct (negb (Nat.leb _ c && _)) eqn:G0; [discriminate|]. apply negb_false_iff in G0.
+    apply andb_prop in G0. destruct G0 as [G01 G02]. apply Nat.leb_le in G01. apply Nat.leb_le in G02.
+    destruct (negb (cur (st s f) <=? t)) eqn:G1; [discriminate|]. apply negb_false_iff in G1. apply N.leb_le in G1.
+    destruct (find _ (elected s)) as [[[t' l'] L0]|] eqn:Hf; [|discriminate].
+    apply find_some in Hf. destruct Hf as [Hin Hp]. simpl in Hp.
+    apply andb_prop in Hp. destruct Hp as [Ht Hl]. apply N.eqb_eq in Ht. apply N.eqb_eq in Hl. subst t' l'.
+    destruct (negb (lpreb s t K)) eqn:G2; [discriminate|]. apply negb_false_iff in G2. apply lpreb_ok in G2.
+    destruct (find _ (created s)) as [K2|] eqn:Hf2; [|discriminate].
+    apply find_some in Hf2. destruct Hf2 as [Hin2 Hp2].
+    rewrite !andb_true_iff in Hp2. destruct Hp2 as [[P1 P2] P3].
+    apply prefixb_true in P1. apply N.leb_le in P2. apply chosenb_ok in P3.
+    intro H; inversion H; subst. apply steps_one. exact (SInstall V s f t l K K2 L0 c Hne G1 Hin G2 Hin2 P1 P2 P3 (conj G01 G02)).
   - intro H; inversion H; subst. apply steps_refl.
 Qed.
 
